@@ -9,62 +9,147 @@ from engine.watch import Hang, cpu_deadline
 from engine.sgrlex import lex
 
 FRAGS = ["a", "b", "xy", " ", "\n", "\n", "\x1b[31m", "\x1b[1;32m", "\x1b[0m", "\x1b[m", "\x1b[38;5;200m", "\x1b[38;2;1;2;3m",
-         "\x1b[4m", "\x1b[24m", "\x1b[44m", "[b]", "[/x]", "12", ":smile:", "'q'", "世", "\x1b[1m", "\x1b[22m"]
+         "\x1b[4m", "\x1b[24m", "\x1b[44m", "[b]", "[/x]", "12", ":smile:", "'q'", "\u4e16", "\x1b[1m", "\x1b[22m"]
+# the rest of the SGR vocabulary a program may write (bright colours, 256 / 24-bit backgrounds, default colours, every
+# attribute with its "off" code, several parameters at once, leading zeros, empty parameters), hyperlinks (OSC 8, with and
+# without id, targets with ';' '=' '?'), other CSI sequences (they style nothing), and more text that markup / emoji /
+# highlighting / the tokeniser could mistake for something else
+MORE_FRAGS = ["\x1b[1;31;44m", "\x1b[39m", "\x1b[49m", "\x1b[91m", "\x1b[97m", "\x1b[100m", "\x1b[107m", "\x1b[40m", "\x1b[30m", "\x1b[48;5;17m",
+              "\x1b[48;2;10;20;30m", "\x1b[38;5;9m", "\x1b[3m", "\x1b[23m", "\x1b[7m", "\x1b[27m", "\x1b[9m", "\x1b[29m", "\x1b[2m", "\x1b[8m", "\x1b[28m",
+              "\x1b[5m", "\x1b[6m", "\x1b[25m", "\x1b[53m", "\x1b[55m", "\x1b[51m", "\x1b[52m", "\x1b[54m", "\x1b[21m", "\x1b[01;032m",
+              "\x1b[38;5;196;48;5;21;4m", "\x1b[0;1;3;4;7;9m",
+              "\x1b[2K", "\x1b[1A", "\x1b[?25l", "\x1b[2K", "\r\n", "\r\n",       # other CSI sequences (they style nothing); CRLF line ends
+              "\x1b]8;;https://example.org/a\x1b\\", "\x1b]8;id=7;https://example.org/b?x=1;y=2\x1b\\", "\x1b]8;;\x1b\\", "\x1b]8;;\x1b\\",
+              "]", ";", "m", "[", "\\", "\xe9", "e\u0301", "[link=x]", "[/]", "[red]", "http://x.y/z", "None", "True", "3.5", "  ", "abcdefghijklmnopqrst", "\U0001f642",
+              "0x1F", "\"s\"", "(1, 2)", "a=b", ":x:", "[/b]", "\\[", "\uff21"]
+# an "off" code switches off both kinds (24 after 21, 25 after 6); SGR 0 does not close a hyperlink (it is not an SGR attribute)
+MORE_FRAGS += ["\x1b[21mu\x1b[24mv", "\x1b[6mu\x1b[25mv", "\x1b[4;21mu\x1b[24mv", "\x1b[21m", "\x1b[24m", "\x1b[6m", "\x1b[25m",
+               "\x1b]8;;https://example.org/a\x1b\\L\x1b[0mM", "\x1b]8;id=7;https://example.org/b?x=1;y=2\x1b\\\x1b[1mL\x1b[mM\x1b]8;;\x1b\\N", "\x1b[0m", "\x1b[m"]
+# TODO(audit-2): kept out of the generator until repaired in rich.ansi (witness in /tmp/audit-2/c19/witness_sgr24_25.py):
+#  * empty parameters ("\x1b[;1m", "\x1b[1;m" - an empty parameter means 0 = reset; the decoder skips it)
+HELD_BACK = ["\x1b[;1m", "\x1b[1;m"]
 
 
 import re
-_COMPLETE = re.compile(r"\x1b\[[0-9;]*[A-Za-z]|\x1b\][^\x1b\x07]*(?:\x1b\\\\|\x07)")
+_SEQ = re.compile(r"\x1b\[[0-?]*[ -/]*[@-~]|\x1b\][^\x1b\x07]*(?:\x1b\\|\x07)")
+_PREFIX = re.compile(r"\x1b(?:\[[0-?]*[ -/]*|\][^\x1b\x07]*\x1b?)?\Z")
 
 
-def execute(ops):
-    """ops: [{"k": "write", "text": str} | {"k": "flush"}] on a real FileProxy + truecolor console."""
-    from rich.console import Console
-    from rich.file_proxy import FileProxy
-    sink = io.StringIO()
-    console = Console(file=sink, force_terminal=True, color_system="truecolor", width=300, _environ={}, legacy_windows=False)
-    proxies = {1: FileProxy(console, io.StringIO()), 2: FileProxy(console, io.StringIO())}   # stdout / stderr
-    pos = 0
-    events = []
-    carries = {1: "", 2: ""}    # an escape sequence cut by a chunk boundary belongs to the chunk that completes it
-    for op in ops:
-        pid = op.get("p", 1)
-        proxy = proxies[pid]
-        carry = carries[pid]
-        e = dict(k=op["k"], exc="none", p=pid)
+def split_carry(text):
+    """-> (the part of text made of complete tokens, the escape sequence left unfinished at its end)"""
+    i = 0
+    while True:
+        j = text.find("\x1b", i)
+        if j < 0:
+            return text, ""
+        m = _SEQ.match(text, j)
+        if m:
+            i = m.end()
+        elif _PREFIX.match(text, j):
+            return text[:j], text[j:]
+        else:
+            i = j + 1
+
+
+class _Redirected:
+    """stdout / stderr redirected by a real Live or Progress display (nothing to show: an empty display, so that the console's
+    output is what the proxies print), or two FileProxy objects made directly"""
+
+    def __init__(self, via, console, redirect):
+        import sys
+        self.via, self.console, self.display = via, console, None
+        self.saved = None
+        if via == "direct":
+            from rich.file_proxy import FileProxy
+            self.streams = {1: FileProxy(console, io.StringIO()), 2: FileProxy(console, io.StringIO())}
+            return
+        self.saved = (sys.stdout, sys.stderr)
+        self.plain = (io.StringIO(), io.StringIO())     # where an un-redirected write would end up
+        sys.stdout, sys.stderr = self.plain
         try:
-            if op["k"] == "write":
-                text = carry + op["text"]
-                cut = text.rfind("\x1b")
-                if cut >= 0 and not _COMPLETE.match(text[cut:]):
-                    carry, text = text[cut:], text[:cut]
-                else:
-                    carry = ""
-                carries[pid] = carry
-                e["chunk"] = lex(text)
-                with cpu_deadline(10.0):
-                    proxy.write(op["text"])
+            if via == "live":
+                from rich.console import RenderGroup
+                from rich.live import Live
+                self.display = Live(RenderGroup(), console=console, auto_refresh=False, redirect_stdout=redirect[0], redirect_stderr=redirect[1])
             else:
-                with cpu_deadline(10.0):
-                    proxy.flush()
-        except Hang:
-            # the call does not come back (10 s of CPU for a few dozen characters): judged as such, the history stops here
-            e["exc"] = "no-termination"
-            e["out"] = []
+                from rich.progress import Progress
+                self.display = Progress(console=console, auto_refresh=False, redirect_stdout=redirect[0], redirect_stderr=redirect[1])
+            self.display.start()
+            self.streams = {1: sys.stdout, 2: sys.stderr}
+        except BaseException:
+            sys.stdout, sys.stderr = self.saved
+            raise
+
+    def close(self):
+        import sys
+        if self.saved is not None:
+            try:
+                if self.display is not None:
+                    self.display.stop()
+            except Exception:
+                pass
+            finally:
+                sys.stdout, sys.stderr = self.saved
+
+
+def execute(ops, via="direct", width=300, redirect=(True, True), how=None):
+    """ops: [{"k": "write", "text": str, "p": 1 | 2} | {"k": "flush"}] on real FileProxy objects bound to a truecolor console: made
+    directly, or sys.stdout / sys.stderr as a started Live / Progress display replaces them; `how` says how the program writes
+    (write / print(end="") / writelines of the pieces)."""
+    from rich.console import Console
+    sink = io.StringIO()
+    console = Console(file=sink, force_terminal=True, color_system="truecolor", width=width, _environ={}, legacy_windows=False)
+    events = []
+    rec = dict(events=events, narrow=width < 300)
+    try:
+        target = _Redirected(via, console, redirect)
+    except Exception as ex:
+        events.append(dict(k="flush", p=1, exc="start-" + type(ex).__name__, out=[]))
+        return rec
+    pos = len(sink.getvalue())
+    links = {}
+    carries = {1: "", 2: ""}    # an escape sequence cut by a chunk boundary belongs to the chunk that completes it
+    try:
+        for n, op in enumerate(ops):
+            pid = op.get("p", 1)
+            proxy = target.streams[pid]
+            e = dict(k=op["k"], exc="none", p=pid)
+            try:
+                if op["k"] == "write":
+                    text, carries[pid] = split_carry(carries[pid] + op["text"])
+                    e["chunk"] = lex(text, links)
+                    style = (how or {}).get(str(n), "write")
+                    with cpu_deadline(10.0):
+                        if style == "print":
+                            print(op["text"], end="", file=proxy)
+                        elif style == "lines":
+                            proxy.writelines(op["text"].splitlines(True))
+                        else:
+                            proxy.write(op["text"])
+                else:
+                    with cpu_deadline(10.0):
+                        proxy.flush()
+            except Hang:
+                # the call does not come back (10 s of CPU for a few dozen characters): judged as such, the history stops here
+                e["exc"] = "no-termination"
+                e["out"] = []
+                events.append(e)
+                break
+            except Exception as ex:
+                e["exc"] = type(ex).__name__
+            v = sink.getvalue()
+            if len(v) - pos > 20000:
+                # far more output than anything written to the proxy: judged as such, and the history stops here
+                e["out"] = lex(v[pos:pos + 2000], links)
+                e["exc"] = "runaway-output"
+                events.append(e)
+                break
+            e["out"] = lex(v[pos:], links)
+            pos = len(v)
             events.append(e)
-            break
-        except Exception as ex:
-            e["exc"] = type(ex).__name__
-        v = sink.getvalue()
-        if len(v) - pos > 20000:
-            # far more output than anything written to the proxy: judged as such, and the history stops here
-            e["out"] = lex(v[pos:pos + 2000])
-            e["exc"] = "runaway-output"
-            events.append(e)
-            break
-        e["out"] = lex(v[pos:])
-        pos = len(v)
-        events.append(e)
-    return dict(events=events)
+    finally:
+        target.close()
+    return rec
 
 
 def split_points(rng, stream, maxchunks):
@@ -76,8 +161,12 @@ def split_points(rng, stream, maxchunks):
     return parts
 
 
-def random_ops(rng):
-    stream = "".join(rng.choice(FRAGS) for _ in range(rng.randint(1, 14)))
+def random_stream(rng, frags):
+    return "".join(rng.choice(frags) for _ in range(rng.randint(1, 14)))
+
+
+def random_ops(rng, frags=FRAGS):
+    stream = random_stream(rng, frags)
     parts = split_points(rng, stream, rng.randint(1, 7))     # cuts at arbitrary character positions: inside escapes too
     ops = []
     pending_visible = False
@@ -89,7 +178,7 @@ def random_ops(rng):
             # flush only a pending line that shows something or nothing at all (escape-only fragments:
             # the statement does not say whether a blank line is due)
             vis = [t for t in lex(buf) if t[0] == "c"]
-            complete = not buf.endswith("\x1b") and "\x1b" not in buf.rsplit("m", 1)[-1]
+            complete = split_carry(buf)[1] == ""
             if (vis and complete) or buf == "":
                 ops.append(dict(k="flush"))
                 buf = ""
@@ -98,10 +187,10 @@ def random_ops(rng):
     return ops
 
 
-def two_proxy_ops(rng):
+def two_proxy_ops(rng, frags=FRAGS):
     """stdout and stderr proxies on one console: two independent streams, calls interleaved."""
-    a = [dict(o, p=1) for o in random_ops(rng)]
-    b = [dict(o, p=2) for o in random_ops(rng)]
+    a = [dict(o, p=1) for o in random_ops(rng, frags)]
+    b = [dict(o, p=2) for o in random_ops(rng, frags)]
     out = []
     while a or b:
         src = a if (a and (not b or rng.random() < 0.5)) else b
@@ -109,10 +198,27 @@ def two_proxy_ops(rng):
     return out
 
 
+def random_setting(rng, ops):
+    """how the history reaches the proxies: made directly or through a started Live / Progress display (redirecting both
+    streams or only the one written to), on a wide console or one narrower than the lines, by write / print / writelines"""
+    via = rng.choice(["direct", "direct", "live", "progress"])
+    used = {o.get("p", 1) for o in ops}
+    redirect = [True, True]
+    if via != "direct" and len(used) == 1 and rng.random() < 0.4:
+        redirect[2 - list(used)[0]] = False          # the other stream is left alone
+    how = {}
+    for n, o in enumerate(ops):
+        if o["k"] == "write" and rng.random() < 0.2:
+            how[str(n)] = rng.choice(["print", "lines"])
+    return dict(via=via, width=rng.choice([300, 300, 300, rng.randint(6, 24)]), redirect=redirect, how=how)
+
+
 def fileproxy_part(chk: Check):
-    cases = []
+    cases, settings = [], []
     if chk.replay_only:
-        cases.append(chk.replay_only["case"]["ops"])
+        c = chk.replay_only["case"]
+        cases.append(c["ops"])
+        settings.append(dict(via=c.get("via", "direct"), width=c.get("width", 300), redirect=c.get("redirect", [True, True]), how=c.get("how", {})))
     else:
         r, cov, missing = tlc.model_check("MC_FileProxy", require_actions=["WriteA", "FlushA"])
         chk.add_tlc(r, "M1-fileproxy-chunkings")
@@ -136,8 +242,18 @@ def fileproxy_part(chk: Check):
                         ops.append(dict(k="flush"))
                 cases.append(ops)
         chk.notes["tlc_generated_chunkings"] = len(cases)
+        settings = [dict(via="direct", width=300, redirect=[True, True], how={}) for _ in cases]
+        for k, ops in enumerate(cases[:400]):
+            # the TLC-generated chunkings once more through real displays
+            cases.append(ops)
+            settings.append(dict(via=("live", "progress")[k % 2], width=300, redirect=[True, True], how={}))
         for i in range(chk.pick(2500, 40000)):
-            cases.append(two_proxy_ops(chk.rng) if i % 3 == 0 else random_ops(chk.rng))
+            frags = FRAGS if i % 2 == 0 else FRAGS + MORE_FRAGS
+            ops = two_proxy_ops(chk.rng, frags) if i % 3 == 0 else random_ops(chk.rng, frags)
+            if i % 3 and chk.rng.random() < 0.3:
+                ops = [dict(o, p=2) for o in ops]       # a program that writes to stderr only
+            cases.append(ops)
+            settings.append("random" if i % 4 else dict(via="direct", width=300, redirect=[True, True], how={}))
     # drop flushes of escape-only pending text from TLC-generated cases (domain restriction, see random_ops)
     cleaned = []
     for ops in cases:
@@ -155,9 +271,10 @@ def fileproxy_part(chk: Check):
                     bufs[pid] = ""
         cleaned.append(out)
     cases = cleaned
+    settings = [random_setting(chk.rng, ops) if st == "random" else st for ops, st in zip(cases, settings)]
     recs = []
-    for ops in cases:
-        recs.append(execute(ops))
+    for ops, st in zip(cases, settings):
+        recs.append(execute(ops, **st))
         if sum(1 for r in recs if r["events"] and r["events"][-1]["exc"] == "no-termination") >= 4:
             # every further history would cost another 10 s of CPU: the ones executed so far are judged
             chk.notes["stopped_after_nonterminating_calls"] = len(recs)
@@ -166,27 +283,52 @@ def fileproxy_part(chk: Check):
     verdicts, st = tlc.judge("Trace_FileProxy", recs)
     chk.add_tlc(st, "M3-fileproxy")
     chk.traces += len(recs)
-    for ops, rec, v in zip(cases, recs, verdicts):
-        chk.case(("fileproxy", ops), any("\n" in o.get("text", "") for o in ops) and len(ops) > 1)
+    for ops, rec, v, st in zip(cases, recs, verdicts, settings):
+        chk.case(("fileproxy", ops, repr(st)), any("\n" in o.get("text", "") for o in ops) and len(ops) > 1)
         if v != "ok":
             step = int(v.split(" ")[1]) if v.startswith("step ") else 0
             clause = v.split(": ")[-1]
             op = ops[step - 1] if 1 <= step <= len(ops) else {"k": "?"}
             pend = "".join(o.get("text", "") for o in ops[:step] if o.get("p", 1) == op.get("p", 1)).rsplit("\n", 1)[-1]
             shape = "markup" if "[" in pend else ("reset-m" if "\x1b[m" in "".join(o.get("text", "") for o in ops[:step]) else "plain")
-            chk.reject("fileproxy %s op=%s pending=%s" % (clause, op["k"], shape), v, dict(part="fileproxy", ops=ops[:step] if step else ops))
+            hw = st["how"].get(str(step - 1), "write") if op["k"] == "write" else ""
+            sofar = "".join(o.get("text", "") for o in ops[:step] if o.get("p", 1) == op.get("p", 1))
+            shape += (" link-reset" if re.search(r"\x1b\]8;[^;]*;[^\x1b]+\x1b\\(?:(?!\x1b\]8;).)*\x1b\[0?m", sofar, re.S) else "")
+            shape += (" off-after-double" if re.search(r"\x1b\[(?:[0-9;]*;)?(?:21|6)m.*\x1b\[2[45]m", sofar, re.S) else "")
+            shape += (" crlf" if "\r\n" in sofar else "") + (" csi" if re.search(r"\x1b\[[0-?]*[ -/]*[@-ln-~]", sofar) else "")
+            chk.reject("fileproxy %s op=%s pending=%s%s%s%s" % (clause, op["k"] if hw in ("", "write") else hw, shape, "" if st["via"] == "direct" else " via=" + st["via"],
+                                                              " narrow" if st["width"] < 300 else "", "" if all(st["redirect"]) else " one-stream-redirected"), v,
+                       dict(st, part="fileproxy", ops=ops[:step] if step else ops))
     if cases:
-        chk.sample(dict(part="fileproxy", ops=cases[-1], console_output_events_of_last_call=recs[-1]["events"][-1]["out"][:20] if recs[-1]["events"] else []))
+        chk.sample(dict(part="fileproxy", ops=cases[-1], setting=settings[-1], console_output_events_of_last_call=recs[-1]["events"][-1]["out"][:20] if recs[-1]["events"] else []))
+
+
+def _disarm_watchdog_at_exit():
+    """engine/watch.py's repeating CPU tick is still armed when the interpreter shuts down; once Python has restored the default
+    signal dispositions a tick kills the process (SIGVTALRM) and the exit status of a finished check is lost - seen after the
+    thorough tier, whose 100 000 records take long to free.  Disarm it first (atexit runs before the handlers are restored)."""
+    import atexit
+    import signal
+    atexit.register(lambda: signal.setitimer(signal.ITIMER_VIRTUAL, 0))
 
 
 def run(chk: Check):
-    chk.rule = ("fileproxy: a case is a list of write(chunk)/flush() calls: every chunking of a 9-event stream into writes of 0..3 events with "
-                "flushes (TLC-enumerated) plus random streams of 1..14 fragments (text, newlines, SGR sequences incl. ESC[m, 256/24-bit colours, "
-                "markup-like and emoji-like text, digits, quotes, wide characters) cut at arbitrary character positions (inside escape sequences, "
-                "empty writes); distinct by op list; non-trivial = more than one call and at least one newline")
+    _disarm_watchdog_at_exit()
+    chk.rule = ("fileproxy: a case is (a list of write(chunk)/flush() calls on the stdout / stderr proxies, how they reach them): every chunking of a "
+                "9-event stream into writes of 0..3 events with flushes (TLC-enumerated; directly and through a started Live / Progress display) plus "
+                "random streams of 1..14 fragments (text, newlines, the SGR vocabulary incl. ESC[m, bright / 256 / 24-bit / default colours, every "
+                "attribute with its off code, several parameters, leading zeros; OSC 8 hyperlinks; other CSI sequences; CRLF line ends; markup-, emoji-, repr- and URL-like text, "
+                "brackets, backslashes, wide and combining characters) cut at arbitrary character positions (inside escape sequences, empty writes), "
+                "written by write / print(end='') / writelines to proxies made directly or installed by Live / Progress (both streams or one "
+                "redirected), on a wide console or one narrower than the lines; distinct by (op list, setting); non-trivial = more than one call "
+                "and at least one newline")
     chk.trusted = ["engine/sgrlex.py (lexical tokeniser of both the written chunks and the console output)"]
-    chk.assumptions = ["console wide enough not to wrap", "CR/BS/VT/FF excluded (CR discards the line prefix by design)",
-                       "a flush of a pending fragment that shows nothing (escape sequences only) is not judged"]
+    chk.assumptions = ["on a console wide enough the lines are compared exactly; on a narrow one blanks aside (word wrapping drops them at line ends)",
+                       "BS/VT/FF and CR inside a line excluded (CR discards the line prefix by design)",
+                       "a flush of a pending fragment that shows nothing (escape sequences only) is not judged",
+                       "the display that redirects shows nothing itself (what the console writes is what the proxies print)",
+                       "a carriage return only directly before a newline (CRLF line ends; elsewhere it means overwriting, which the statement does not determine)",
+                       "held back until repaired in rich.ansi (TODO(audit-2) in drivers/c19.py): empty SGR parameters"]
     part = (chk.replay_only or {}).get("case", {}).get("part")
     if part in (None, "fileproxy"):
         fileproxy_part(chk)
